@@ -169,8 +169,8 @@ func CGJSONDoc(total int, fill []byte) (doc []byte, ok bool) {
 // the WKB of POINT(x y) with little endian doubles (25 bytes).
 func CGWKBPoint(srid uint32, x, y uint64) []byte {
 	b := le32(nil, srid)
-	b = append(b, 1)   // little endian
-	b = le32(b, 1)     // wkbPoint
-	b = le64(b, x)     // IEEE bits of x
+	b = append(b, 1)  // little endian
+	b = le32(b, 1)    // wkbPoint
+	b = le64(b, x)    // IEEE bits of x
 	return le64(b, y) // IEEE bits of y
 }
